@@ -7,6 +7,7 @@ import (
 
 	"golang.org/x/tools/go/ssa"
 
+	"verif/lint/internal/load"
 	"verif/lint/internal/paths"
 	"verif/lint/internal/report"
 )
@@ -28,7 +29,7 @@ func runC16(x *Ctx) {
 	x.C.Rule("C16.R1", "emitted codes ⊆ parsed codes ⊆ unmarshaller table", 3)
 	x.C.Rule("C16.R2", "byte layout agreement between Parse, FromPubKey and PubKey", 3)
 	x.C.Rule("C16.R3", "Parse guards; no other cause of rejection", 6)
-	x.C.Rule("C16.R4", "PubKey only accepts the canonical identifier of the key", 2)
+	x.C.Rule("C16.R4", "PubKey only accepts the canonical identifier of the key; unmarshallers refuse only what the library refuses", 4)
 	x.C.Rule("C16.R5", "nil result of UnmarshalCompressed is rejected", 1)
 	x.C.Rule("C16.R6", "point coordinates are serialised with a fixed width", 1)
 
@@ -159,6 +160,64 @@ func runC16(x *Ctx) {
 		}
 		x.C.Obl("C16.R3", "no-other-rejection", x.pos(parse), "Parse refuses a string only for: missing did:key: prefix, multibase error, not base58btc, varint error, multicodec not whitelisted",
 			err == nil && len(unk) == 0 && len(bad) == 0 && len(fsel) >= 5, "rejection path(s) with another cause:\n"+renderPaths(bad, 3))
+	}
+
+	// ---- closed world for the key unmarshallers of the package (functions of type func([]byte) (PubKey, error),
+	// function literals included): they refuse key material only because a library call refused it (its error is
+	// propagated) or because elliptic.UnmarshalCompressed answered nil. A refusal of their own (a length bound, a
+	// second whitelist) can refuse identifiers that FromPubKey produces for a valid key.
+	{
+		var fns []*ssa.Function
+		var addF func(f *ssa.Function)
+		addF = func(f *ssa.Function) {
+			sig := f.Signature
+			if sig.Params().Len() == 1 && sig.Results().Len() == 2 && sig.Params().At(0).Type().String() == "[]byte" &&
+				strings.HasSuffix(sig.Results().At(0).Type().String(), "crypto.PubKey") && sig.Results().At(1).Type().String() == "error" && len(f.Blocks) > 0 {
+				fns = append(fns, f)
+			}
+			for _, a := range f.AnonFuncs {
+				addF(a)
+			}
+		}
+		for _, f := range x.P.ModuleFuncs() {
+			if x.P.IsLibrary(f) && x.P.PkgPathOf(f) == load.Module+"/did" && f.Parent() == nil {
+				addF(f)
+			}
+		}
+		sort.Slice(fns, func(i, j int) bool { return load.ShortName(fns[i]) < load.ShortName(fns[j]) })
+		for _, f := range fns {
+			bad, n := "", 0
+			for _, p := range x.pathsQuiet(f) {
+				if p.End != paths.EndReturn {
+					continue
+				}
+				if o, _ := p.ErrorOutcome(); o == paths.Success {
+					continue
+				}
+				rs := p.Results()
+				// delegated to a library call: its own verdict
+				if len(rs) == 2 && rs[1].Op == "extract" && len(rs[1].Args) == 1 && (rs[1].Args[0].Op == "call" || rs[1].Args[0].Op == "invoke") && !strings.HasPrefix(rs[1].Args[0].Name, "did.") && !strings.HasPrefix(rs[1].Args[0].Name, "fmt.") && !strings.HasPrefix(rs[1].Args[0].Name, "errors.") {
+					n++
+					// every fact on the way must be a library verdict too
+				}
+				n++
+				for _, fc := range p.Facts {
+					a := fc.Atom
+					okF := false
+					if xx := paths.NilCheckOf(a); xx != nil {
+						if xx.Op == "extract" && len(xx.Args) == 1 && (xx.Args[0].Op == "call" || xx.Args[0].Op == "invoke") && !strings.HasPrefix(xx.Args[0].Name, "did.") {
+							okF = true // error / nil result of a library call
+						}
+					}
+					if !okF {
+						bad += fmt.Sprintf("%s refuses (or may refuse) key material on the condition %s, which is not the verdict of a library call\n", load.ShortName(f), fc)
+					}
+				}
+			}
+			if n > 0 {
+				x.C.Obl("C16.R4", "unmarshaller-refusals:"+load.ShortName(f), x.pos(f), "the unmarshaller refuses key material only when a library call refused it", bad == "", dedupLines(bad))
+			}
+		}
 	}
 
 	// ---- R4
